@@ -374,6 +374,8 @@ class Host:
         os.makedirs(container_dir, exist_ok=True)
         with open(os.path.join(self.tm_env.apps_dir, unique_name, 'type'), 'w') as f:
             f.write('longrun')      # what supervisor.create_service leaves: the container is a service directory
+        if not manifest['shared_network'] and getattr(c, 'via_run', False):
+            return self._start_via_run(c, cut, container_dir)
         network_client = self.tm_env.svc_network.make_client(
             os.path.join(container_dir, 'resources', 'network'))
         if not manifest['shared_network']:
@@ -419,6 +421,131 @@ class Host:
             self.disarm()
         if interrupted:
             c.close_sockets()       # the process died, its sockets with it
+            c.stage = 'aborted'
+            return 'interrupted'
+        c.stage = 'started'
+        return 'complete'
+
+    def _start_via_run(self, c, cut, container_dir):
+        """The whole treadmill.runtime.linux._run.run() with the boundaries that need a real node stubbed: the
+        cgroup / localdisk / presence resource services (answer at once), cgroups.join, the image, the root volume,
+        mount clean-up, app hooks and the final exec (which ends the call).  The order of its steps - request
+        the network, allocate ports, save state.json, register rules / specs / set entries - is the code's own."""
+        from treadmill import runtime, subproc
+        from treadmill.runtime.linux import _run
+        host = self
+        manifest = c.manifest
+        unique_name = c.unique
+
+        class _Exec(BaseException):
+            pass
+
+        class _Client:
+            def __init__(self, reply, on_wait=None):
+                self.reply, self.on_wait = reply, on_wait
+
+            def put(self, _name, _req):
+                pass
+
+            def wait(self, _name, timeout=None):      # pylint: disable=unused-argument
+                if self.on_wait:
+                    self.on_wait()
+                return self.reply
+
+        class _Svc:
+            def __init__(self, reply, on_wait=None):
+                self.reply, self.on_wait = reply, on_wait
+
+            def make_client(self, _dir):
+                return _Client(self.reply, self.on_wait)
+
+        class _Image:
+            def unpack(self, *_a, **_kw):
+                pass
+
+        real_net = self.tm_env.svc_network
+        real_make = real_net.make_client
+
+        def make_net_client(path):
+            client = real_make(path)
+
+            class _NetClient:
+                def __getattr__(self, attr):
+                    return getattr(client, attr)
+
+                def wait(self, name, timeout=None):      # pylint: disable=unused-argument
+                    # the default timeout builds an inotify watcher although the reply is already there (128 per user)
+                    return client.wait(name, timeout=0)
+            return _NetClient()
+
+        captured = {}
+        real_alloc = runtime.allocate_network_ports
+
+        def alloc(ext_ip, man):
+            captured['sockets'] = real_alloc(ext_ip, man)
+            return captured['sockets']
+
+        def exec_pid1(*_a, **_kw):
+            raise _Exec()
+
+        saved = []
+
+        def rebind(obj, attr, new):
+            saved.append((obj, attr, getattr(obj, attr)))
+            setattr(obj, attr, new)
+        # the network daemon answers while the container waits for its cgroups
+        rebind(self.tm_env, 'svc_cgroup', _Svc({}, on_wait=self.serve_network))
+        rebind(self.tm_env, 'svc_localdisk', _Svc({'block_dev': '/dev/null'}))
+        rebind(self.tm_env, 'svc_presence', _Svc({}))
+        class _NetSvc:
+            def __getattr__(self, attr):
+                return getattr(real_net, attr)
+
+            def make_client(self, path):
+                return make_net_client(path)
+        rebind(self.tm_env, 'svc_network', _NetSvc())
+        rebind(_run, '_apply_cgroup_limits', lambda _c: None)
+        rebind(_run.image, 'get_image', lambda _env, _man: _Image())
+        rebind(_run, '_create_root_dir', lambda cdir, _ld: os.path.join(cdir, 'root'))
+        rebind(_run.fs_linux, 'cleanup_mounts', lambda *_a, **_kw: None)
+        rebind(_run.apphook, 'configure', lambda *_a, **_kw: None)
+        rebind(runtime, 'allocate_network_ports', alloc)
+        rebind(subproc, 'exec_pid1', exec_pid1)
+        self.arm(cut)
+        interrupted = False
+        try:
+            try:
+                from treadmill import utils as tm_utils
+                _run.run(self.tm_env, tm_utils.to_obj({'host_mount_whitelist': []}), container_dir, manifest)
+                raise HarnessError('_run.run returned without exec')
+            except _Exec:
+                pass
+            except Kill:
+                if not self.cut_fired:
+                    raise
+                interrupted = True
+            except subproc.CalledProcessError:
+                if not (self.cut_fired and self.cut and self.cut[0] == 'error'):
+                    raise
+                interrupted = True
+        finally:
+            self.disarm()
+            for obj, attr, old in reversed(saved):
+                setattr(obj, attr, old)
+            self.close_inotifies()
+        self.started_via_run = getattr(self, 'started_via_run', 0) + 1
+        c.sockets = captured.get('sockets', [])
+        c.vip = self.vips.get(unique_name)
+        state = os.path.join(container_dir, 'state.json')
+        if os.path.exists(state):
+            with open(state) as f:
+                c.state = json.load(f)
+        else:
+            # the start died before state.json was written: what it had allocated so far is in the manifest
+            c.state = json.loads(json.dumps(manifest, default=str))
+            self.no_state_json_after_start = getattr(self, 'no_state_json_after_start', 0) + 1
+        if interrupted:
+            c.close_sockets()
             c.stage = 'aborted'
             return 'interrupted'
         c.stage = 'started'
